@@ -12,7 +12,7 @@ from ..cfg import cfg_of
 from ..model import FunctionInfo, AnalysisError
 from ..report import Ctx
 from ..tensor import Typer
-from ..util import norm, fn_body_nodes, kwarg, lexical_guards, atomic_facts
+from ..util import arg_texts, arg_nodes, norm, fn_body_nodes, kwarg, lexical_guards, atomic_facts
 from .common import names_in, calls_named
 
 EXPLANATION = (
@@ -194,7 +194,7 @@ def run(ctx: Ctx):
         ctx.violation("CONV-1", f, lp, "converged flag", "no flag is set to True inside the loop")
     rets = [n for n in fn_body_nodes(f) if isinstance(n, ast.Return) and isinstance(n.value, ast.Call)]
     if rets:
-        kw = {k.arg: ast.unparse(k.value) for k in rets[0].value.keywords}
+        kw = arg_texts(rets[0].value)
         for fld, var in (("policy", env.get("pi")), ("action_values", qname), ("state_values", env.get("v")), ("converged", cname)):
             ctx.check(var is not None and kw.get(fld) == var, "CONV-1", f, rets[0], f"returned {fld} is the last iteration's own", f"{fld}={kw.get(fld)}",
                       f"returned `{fld}` is `{kw.get(fld)}`, not the variable `{var}` of the evaluation/improvement just checked")
@@ -214,7 +214,7 @@ def run(ctx: Ctx):
     call = calls_named(w, "entropy_regularized_policy_iteration")
     resn = None
     if call:
-        kw = {k.arg: ast.unparse(k.value) for k in call[0].keywords}
+        kw = arg_texts(call[0])
         want = {"transition_matrix": wenv.get("tf"), "reward_matrix": wenv.get("rf"), "discount_rate": f"{mp_}.discount_rate", "entropy_weight": "self.entropy_weight"}
         for k, vv in want.items():
             ctx.check(vv is not None and kw.get(k) == vv, "WRAP-1", w, call[0], f"wrapper passes {k} from the MDP / configuration", f"{k}={kw.get(k)}", f"solver's `{k}` is `{kw.get(k)}`")
